@@ -1763,6 +1763,8 @@ class Segment(Element):
                     datatype = 'ST'
                 else:
                     datatype = 'varies'
+                # the field is encoded by its number: ZZZ_07 is ZZZ_7
+                name = '{0}_{1}'.format(name[:3], int(name[4:]))
 
                 element = {'cls': Field, 'name': name, 'ref': ('leaf', None, datatype, None, None, -1)}
             else:
